@@ -8,3 +8,6 @@ pub use diagonal::DiagAdaptExpSettings;
 pub use diagonal::Strategy as DiagAdaptStrategy;
 pub use low_rank::LowRankMassMatrixStrategy;
 pub use strategy::MassMatrixAdaptStrategy;
+
+#[cfg(nuts_rs_verif)]
+pub use diagonal::DrawGradCollector as VerifDrawGradCollector;
